@@ -567,6 +567,17 @@ fn run_steps<D: Drive>(d: &mut D, steps: &[Step], ctx: &Ctx, out: &mut String, b
     }
 }
 
+thread_local! {
+    static CONSUMER: std::cell::Cell<u32> = const { std::cell::Cell::new(0) };
+}
+fn consumer_rotation() -> u32 {
+    CONSUMER.with(|c| {
+        let v = c.get();
+        c.set(v.wrapping_add(1));
+        v % 10
+    })
+}
+
 /// `count()` / `last()` / `collect()` of the iterator in its current state
 fn consume<X: Iterator>(x: X, end: End, ctx: &Ctx, out: &mut String)
 where
@@ -589,7 +600,55 @@ where
             }
         }
         End::Collect => {
-            let v: Vec<X::Item> = x.collect();
+            // every consuming method of Iterator that visits the remaining elements once, in
+            // order, is the same thing for the model (next() until None); an implementation may
+            // override any of them: they are used in rotation
+            let mut x = x;
+            let mut v: Vec<X::Item> = Vec::new();
+            match consumer_rotation() {
+                0 => v = x.collect(),
+                1 => x.for_each(|y| v.push(y)),
+                2 => v = x.fold(Vec::new(), |mut a, y| {
+                    a.push(y);
+                    a
+                }),
+                3 => {
+                    let _ = x.try_for_each(|y| -> Result<(), ()> {
+                        v.push(y);
+                        Ok(())
+                    });
+                }
+                4 => {
+                    let _ = x.all(|y| {
+                        v.push(y);
+                        true
+                    });
+                }
+                5 => {
+                    let _ = x.any(|y| {
+                        v.push(y);
+                        false
+                    });
+                }
+                6 => {
+                    let _ = x.find_map(|y| -> Option<()> {
+                        v.push(y);
+                        None
+                    });
+                }
+                7 => {
+                    let _ = x.position(|y| {
+                        v.push(y);
+                        false
+                    });
+                }
+                8 => {
+                    let (a, b): (Vec<X::Item>, Vec<X::Item>) = x.partition(|_| true);
+                    v = a;
+                    v.extend(b);
+                }
+                _ => v.extend(x.by_ref()),
+            }
             sep(out);
             out.push_str("collect:");
             p_u64(out, v.len() as u64);
@@ -748,7 +807,42 @@ macro_rules! on_q {
     };
 }
 
+/// runs one history line from inside a destructor, while the stack unwinds
+/// from an unrelated panic of the caller (`unwinding <line>`):
+/// `std::thread::panicking()` is true for the whole operation although
+/// nothing in it need panic (a fused callback inside it is caught inside the
+/// destructor, which the language allows)
+struct OnUnwind<'a, 't, H: BuildHasher + Default + Clone + std::fmt::Debug> {
+    ex: &'a mut Ex<H>,
+    toks: &'a [&'t str],
+    line: &'a mut String,
+    dead: &'a mut bool,
+}
+impl<'a, 't, H: BuildHasher + Default + Clone + std::fmt::Debug> Drop for OnUnwind<'a, 't, H> {
+    fn drop(&mut self) {
+        *self.dead = self.ex.step_plain(self.toks, self.line);
+    }
+}
+
 impl<H: BuildHasher + Default + Clone + std::fmt::Debug> Ex<H> {
+    /// Executes one op line and appends its trace line to `line`.
+    /// Returns true when the history is dead (a fault was printed).
+    pub fn step(&mut self, toks: &[&str], line: &mut String) -> bool {
+        if toks[0] != "unwinding" {
+            return self.step_plain(toks, line);
+        }
+        if toks.len() < 2 {
+            bad("empty op");
+        }
+        let mut dead = false;
+        let _ = catch_unwind(AssertUnwindSafe(|| {
+            let _g = OnUnwind { ex: self, toks: &toks[1..], line, dead: &mut dead };
+            user_panic()
+        }));
+        user_panic_take();
+        dead
+    }
+
     pub fn new(nregs: usize, odd: bool) -> Ex<H> {
         Ex {
             regs: (0..nregs).map(|_| Reg::Empty).collect(),
@@ -767,9 +861,7 @@ impl<H: BuildHasher + Default + Clone + std::fmt::Debug> Ex<H> {
         }
     }
 
-    /// Executes one op line and appends its trace line to `line`.
-    /// Returns true when the history is dead (a fault was printed).
-    pub fn step(&mut self, toks: &[&str], line: &mut String) -> bool {
+    fn step_plain(&mut self, toks: &[&str], line: &mut String) -> bool {
         let (fuse, toks): (Option<u64>, &[&str]) = if toks[0] == "fuse" || toks[0] == "hfuse" {
             // hfuse: Hash / Eq of items count as callbacks too
             hash_callbacks(toks[0] == "hfuse");
@@ -1318,9 +1410,16 @@ impl<H: BuildHasher + Default + Clone + std::fmt::Debug> Ex<H> {
                 // fmt::Debug is public API too: format the queue, report how many
                 // entries were printed (one `Index(..)` key per heap slot)
                 let r: usize = num(tok(t, 1));
+                // (plain and alternate form: `{:#?}` is what `dbg!` prints)
                 let txt = match self.regs.get(r) {
-                    Some(Reg::Pq(q)) => format!("{:?}", q),
-                    Some(Reg::Dpq(q)) => format!("{:?}", q),
+                    Some(Reg::Pq(q)) => {
+                        let _ = format!("{:#?}", q);
+                        format!("{:?}", q)
+                    }
+                    Some(Reg::Dpq(q)) => {
+                        let _ = format!("{:#?}", q);
+                        format!("{:?}", q)
+                    }
                     _ => invalid!(out),
                 };
                 out.push_str("nat ");
@@ -1454,6 +1553,7 @@ enum AnyEx {
     M1(Ex<H1>),
     M2(Ex<H2>),
     M3(Ex<H3>),
+    M4(Ex<H4>),
 }
 impl AnyEx {
     fn new(mode: u32, nregs: usize, odd: bool) -> AnyEx {
@@ -1462,6 +1562,7 @@ impl AnyEx {
             1 => AnyEx::M1(Ex::new(nregs, odd)),
             2 => AnyEx::M2(Ex::new(nregs, odd)),
             3 => AnyEx::M3(Ex::new(nregs, odd)),
+            4 => AnyEx::M4(Ex::new(nregs, odd)),
             m => bad(&format!("hashmode {m}")),
         }
     }
@@ -1471,6 +1572,7 @@ impl AnyEx {
             AnyEx::M1(e) => e.step(toks, line),
             AnyEx::M2(e) => e.step(toks, line),
             AnyEx::M3(e) => e.step(toks, line),
+            AnyEx::M4(e) => e.step(toks, line),
         }
     }
 }
